@@ -15,37 +15,53 @@ CONSTANTS Depth,
                    \* at the hook point mux.provider.beforeAdd (provider.go, build tag verif), so that PeerClose of the
                    \* attempt's session, kills of other sessions and Cancel are scheduled BETWEEN the successful Ping and
                    \* AddConnection. FALSE: PAdd runs eagerly like every other internal step.
+          Est,    \* TRUE: schedules for the REAL establishingConnProvider (establisher.go) under a real provider + manager, dialing a
+                  \* listener of the harness whose sessions answer pings: the only gate sits INSIDE the dial (the
+                  \* provider's tlsWrapper, right after the TCP connect), so the commands are DialOk (the dial in flight
+                  \* completes - also after Cancel), session kills and Cancel; session setup, ping and add run by themselves
+          Rcv,    \* TRUE: schedules for the REAL receiver provider (NewMuxReceiverProvider, TLS on): inbound peers are commands -
+                  \* Good (TLS + yamux client: session setup, ping and add succeed by themselves) and Silent (connects and
+                  \* never sends a byte: its attempt ends with the ping's write timeout) - plus session kills and Cancel
+          MaxSilent,
           Loop    \* TRUE: schedules for two REAL pools connected over loopback (establisher <-> receiver): the peer is always
                   \* reachable and well-behaved (dial / session / ping succeed at once, unrecorded), a dial parked when the
                   \* context ends fails (what establisher.go / receiver.go do); only session kills and Cancel are commands
-VARIABLES hist, healing, healed
-sv == <<hist, healing, healed>>
+VARIABLES hist, healing, healed, silent, silents
+sv == <<hist, healing, healed, silent, silents>>
 Cmd(r) == hist' = Append(hist, r)
-SimInit == Init /\ hist = <<>> /\ healing = FALSE /\ healed = 0
+SimInit == Init /\ hist = <<>> /\ healing = FALSE /\ healed = 0 /\ silent = FALSE /\ silents = 0
 Benign == DialOk \/ SessOk \/ PingOk \/ (AddGate /\ PAdd)
 Eager == IF AddGate THEN InternalButAdd ELSE Internal
-EnvStep ==
-  \/ (~Loop /\ DialOk /\ Cmd([a |-> "DialOk", c |-> nextId + 1]))
-  \/ (~Loop /\ DialFail /\ Cmd([a |-> "DialFail", c |-> 0]))
-  \/ (~Loop /\ SessOk /\ Cmd([a |-> "SessOk", c |-> held]))
-  \/ (~Loop /\ SessErr /\ Cmd([a |-> "SessErr", c |-> held]))
-  \/ (~Loop /\ PingOk /\ Cmd([a |-> "PingOk", c |-> held]))
+EnvBase ==
+  \/ (Rcv /\ running /\ DialOk /\ Cmd([a |-> "Good", c |-> nextId + 1]))
+  \/ (~Loop /\ ~Rcv /\ DialOk /\ Cmd([a |-> "DialOk", c |-> nextId + 1]))
+  \/ (~Loop /\ ~Est /\ ~Rcv /\ DialFail /\ Cmd([a |-> "DialFail", c |-> 0]))
+  \/ (~Loop /\ ~Est /\ ~Rcv /\ SessOk /\ Cmd([a |-> "SessOk", c |-> held]))
+  \/ (~Loop /\ ~Est /\ ~Rcv /\ SessErr /\ Cmd([a |-> "SessErr", c |-> held]))
+  \/ (~Loop /\ ~Est /\ ~Rcv /\ PingOk /\ Cmd([a |-> "PingOk", c |-> held]))
   \/ (AddGate /\ PAdd /\ Cmd([a |-> "Add", c |-> held]))
-  \/ (~Loop /\ \E k \in Kinds : PingFail(k) /\ Cmd([a |-> "PingFail", c |-> held, kind |-> k]))
+  \/ (~Loop /\ ~Est /\ ~Rcv /\ \E k \in Kinds : PingFail(k) /\ Cmd([a |-> "PingFail", c |-> held, kind |-> k]))
   \/ (\E c \in Conn : PeerClose(c) /\ Cmd([a |-> "PeerClose", c |-> c]))
   \/ (\E c \in Conn : LocalClose(c) /\ Cmd([a |-> "LocalClose", c |-> c]))
   \/ (Cancel /\ Cmd([a |-> "Cancel", c |-> 0]))
-HealStart == /\ ~Loop /\ running /\ ~healing /\ healed < MaxHeal /\ ppc \in {"conn", "acq"} /\ nextId + N <= MaxConn
+EnvStep == (EnvBase /\ UNCHANGED <<silent, silents>>)
+           \/ (Rcv /\ running /\ silents < MaxSilent /\ DialOk /\ silent' = TRUE /\ silents' = silents + 1
+               /\ Cmd([a |-> "Silent", c |-> nextId + 1]))
+HealStart == /\ ~Loop /\ ~Est /\ ~Rcv /\ running /\ ~healing /\ healed < MaxHeal /\ ppc \in {"conn", "acq"} /\ nextId + N <= MaxConn
              /\ (IF Len(hist) = 0 THEN TRUE ELSE hist[Len(hist)].a # "Heal")
              /\ healing' = TRUE /\ healed' = healed + 1 /\ Cmd([a |-> "Heal", c |-> 0]) /\ UNCHANGED vars
-Pad == ~ENABLED EnvStep /\ ~ENABLED HealStart /\ Cmd([a |-> "Pad", c |-> 0]) /\ UNCHANGED <<vars, healing, healed>>
+Pad == ~ENABLED EnvStep /\ ~ENABLED HealStart /\ Cmd([a |-> "Pad", c |-> 0]) /\ UNCHANGED <<vars, healing, healed, silent, silents>>
 SimNext ==
   /\ Len(hist) < Depth
   /\ IF ENABLED Eager THEN Eager /\ UNCHANGED sv
+     ELSE IF Est /\ ENABLED (SessOk \/ PingOk) THEN (SessOk \/ PingOk) /\ UNCHANGED sv
+     ELSE IF Rcv /\ ppc = "ping" /\ silent THEN PingFail("timeout") /\ silent' = FALSE /\ UNCHANGED <<hist, healing, healed, silents>>
+     ELSE IF Rcv /\ ENABLED (SessOk \/ PingOk) THEN (SessOk \/ PingOk) /\ UNCHANGED sv
+     ELSE IF Rcv /\ ~running /\ ppc = "conn" THEN DialFail /\ UNCHANGED sv
      ELSE IF Loop /\ running /\ ENABLED Benign THEN Benign /\ UNCHANGED sv
      ELSE IF Loop /\ ~running /\ ppc = "conn" THEN DialFail /\ UNCHANGED sv
      ELSE IF healing THEN (IF ENABLED Benign THEN Benign /\ UNCHANGED sv
-                           ELSE healing' = FALSE /\ UNCHANGED <<vars, hist, healed>>)
-     ELSE (EnvStep /\ UNCHANGED <<healing, healed>>) \/ HealStart \/ Pad
+                           ELSE healing' = FALSE /\ UNCHANGED <<vars, hist, healed, silent, silents>>)
+     ELSE (EnvStep /\ UNCHANGED <<healing, healed>>) \/ (HealStart /\ UNCHANGED <<silent, silents>>) \/ Pad
   /\ (Len(hist') = Depth /\ Len(hist) < Depth => PrintT(ToJson(hist')))
 =============================================================================
